@@ -94,7 +94,7 @@ func idle(state, block string) bool {
 	if strings.Contains(block, "os/signal.signal_recv") || strings.Contains(block, "os/signal.loop") {
 		return true
 	}
-	if strings.Contains(block, "verif/wk.(*Ctx).Guard") {
+	if strings.Contains(block, "verif/wk.(*Ctx).Guard") || strings.Contains(block, "verif/wk.(*Ctx).caseWatchdog") {
 		return true
 	}
 	if strings.Contains(block, "verif/stuck.") || strings.Contains(block, "IdleControlLoop") {
